@@ -22,7 +22,7 @@ chk("C01","model_checking",
 
 E3NOTE="Bounded: inputs within <=1 (quick) / <=2 (thorough, selected baselines) field substitutions of the baselines, values from a boundary menu; fields are the reads the parser itself performs. No byte-level havoc (that would be sampling). Trusted: harness streams/allocator, the watchdog (10 s wall per case)."
 chk("C06","model_checking",
-    "Each baseline (muxer outputs of every kind, canned files incl. fragment-mode, reference-encoded kitchen sinks) is opened and fully probed (every accessor, JSON/summary of every box, sample ids 0..count+1 and u32::MAX) under every single substitution of a boundary value into every field the parser reads (and all pairs on selected baselines in the thorough tier), in both an overflow-checked and a wrapping release build, in worker subprocesses so aborts and stack overflows are attributed; no panic/abort on any explored input.",
+    "Each baseline (muxer outputs of every kind, canned files incl. fragment-mode, reference-encoded kitchen sinks K1-K6) and each member of the enumerated input-shape families (metadata item x data type x payload length, fragment run-length vectors x flag forms, chunk/size shapes) is opened and fully probed (every accessor, JSON/summary of every box, sample ids 0..count+1 and u32::MAX) under every single substitution of a boundary value into every field the parser reads (and all pairs on selected baselines in the thorough tier), in both an overflow-checked and a wrapping release build, in worker subprocesses so aborts and stack overflows are attributed; no panic/abort on any explored input.",
     E3NOTE,"exhaustive deviation-bounded exploration of inputs (k<=2 field substitutions, dynamic field discovery) on the real reader, two build profiles, process isolation","§3 C06")
 chk("C07","model_checking",
     "Same executions as C06 with a counting, budgeted stream: every open and every later call must stay within 64n+4096 stream operations and 64n+2^20 bytes (+ the returned sample), and thread CPU time within 0.5 s per phase; a watchdog turns a non-terminating case into an attributed violation instead of a hung run.",
@@ -49,7 +49,7 @@ chk("C14","model_checking",
     "Fields are swept one or two at a time (not the full cross product of all fields). Trusted: Annex A profile table and the duration tolerance stated in the evidence.",
     "exhaustive enumeration of configuration domains x small operation histories on the real muxer+reader","§3 C14")
 chk("C15","model_checking",
-    "Reader: explicit-state breadth-first search of the complete reachable state graph of an opened reader under a ~30-50 call alphabet (state = canonical rendering of every field + stream position); every call is applied in every reachable state and must return what a fresh reader returns; plus an undeduplicated sweep of all call sequences to depth 2/3. Muxer: every history of C01's quick space muxed twice, byte-identical; every file opened twice, structures equal.",
+    "Reader: explicit-state breadth-first search of the complete reachable state graph of an opened reader under a ~30-50 call alphabet (state = canonical rendering of every field + stream position); every call is applied in every reachable state and must return what a fresh reader returns; the search is repeated over streams cut at every (quick: every second) position inside the media data with the declared length unchanged, so that failing reads are part of the histories; plus an undeduplicated sweep of all call sequences to depth 2/3. Muxer: every history of C01's quick space muxed twice, byte-identical; every file opened twice, structures equal.",
     "State equality is by fingerprint (sorted pretty-Debug lines + stream position); the depth-2/3 sweep without de-duplication cross-checks it. Files are a fixed list.",
     "explicit-state BFS with state de-duplication over the real reader (whole reachable graph) + exhaustive history enumeration for determinism","§3 C15")
 chk("C17","model_checking",
@@ -58,16 +58,16 @@ chk("C17","model_checking",
     "exhaustive enumeration of call sequences (depth-bounded) over out-of-domain alphabets on the real muxer, two build profiles","§3 C17")
 
 chk("C03","model_checking",
-    "Every consistent table set up to the bound is reference-encoded from a logical movie by an encoder that shares no code with the library (all compositions of N samples into chunks x every run-length encoding of the chunk map x stco/co64 x every size vector over {0,1,2} and constant sizes; every delta/offset vector with every run splitting and both ctts versions; every sync subset; every interleaving of two tracks' chunks and every chunk order; the complete cross product for small N; all 5x5 codec pairs) and every id 0..N+2, u32::MAX is looked up through sample_offset and read_sample and compared with the statement's formula evaluated on the logical movie.",
-    "Bounded by N (6 quick / 8 thorough per family; cross product N<=2/3). 'Randomly for large N' of the quantifier is not covered. Trusted: refmp4 reference encoder (validated in the other direction by C02/C05 and by the canned files).",
+    "Every consistent table set up to the bound is reference-encoded from a logical movie by an encoder that shares no code with the library (all compositions of N samples into chunks x every run-length encoding of the chunk map x stco/co64 x every size vector over {0,1,2} and constant sizes; every delta/offset vector with every run splitting and both ctts versions; every sync subset; every interleaving of two tracks' chunks and every chunk order; the complete cross product for small N; all 5x5 codec pairs) and every id 0..N+2, u32::MAX is looked up through sample_offset and read_sample and compared with the statement's formula evaluated on the logical movie. In addition the canned (ffmpeg-produced) files are decoded by the independent parser, the lookup semantics are evaluated on those tables, and every sample is compared with the library's answer.",
+    "Bounded by N (7 quick / 9 thorough per family; cross product N<=3/4). 'Randomly for large N' of the quantifier is not covered. Trusted: refmp4 reference encoder (validated in the other direction by C02/C05 and by the canned files).",
     "exhaustive enumeration of input shapes (bounded N) against an independent reference model, on the real reader","§3 C03")
 chk("C09","model_checking",
-    "Logical fragmented movies are enumerated (1-3 fragments; one or two tracks per fragment in both orders; run lengths 0..3; explicit base at the moof or at the data / default-base-is-moof / neither; with and without trun data offset, data before or after the moof (negative offsets); fragment default duration, per-sample durations, composition offsets absent/v0/v1; tfdt v0/v1 with base times 0, 5, 2^32+5; movie-level defaults; 32/64-bit moof headers), reference-encoded, opened both as one stream and as initialization segment + separately opened media segment, and every id is compared with the statement's formula.",
+    "Logical fragmented movies are enumerated (1-3 fragments in quick, 1-4 in thorough; one or two tracks per fragment in both orders; run lengths 0..3; explicit base at the moof or at the data, also together with the default-base-is-moof flag / default-base-is-moof / neither; with and without trun data offset, data before or after the moof (negative offsets); fragment default duration, per-sample durations, composition offsets absent/v0/v1; tfdt v0/v1 with base times 0, 5, 2^32+5; movie-level defaults; 32/64-bit moof headers), reference-encoded, opened both as one stream and as initialization segment + separately opened media segment, and every id is compared with the statement's formula.",
     "Bounded as listed in the evidence (families 1-3). One trun per traf. A known finding (single trex) is listed in known_findings.json by predicate.",
     "exhaustive enumeration of input shapes (bounded) against an independent reference model, on the real reader, two delivery modes","§3 C09")
 
 chk("C12","model_checking",
-    "Reference box trees of representative progressive movies (AVC+AAC with every optional table, edit lists and iTunes metadata; HEVC+TTXT with a QuickTime-form meta and constant sample size; VP9 with mdat first) and fragmented movies (one and two tracks, mixed base/offset forms) are transformed at every applicable position (insert free/unknown boxes with 32- and 64-bit headers at every child index of the top level and of every iterating container; permute order-free siblings; swap mdat/moov; 64-bit header on each single box and on all; 1 and 8 spare bytes after every fixed-layout/table box), re-serialised with dependent offsets recomputed, and compared with the untransformed movie: per-sample results, offsets shifted by exactly the layout change, track accessors, metadata. Quick = every single transformation; thorough = every pair.",
+    "Reference box trees of representative progressive movies (AVC+AAC with every optional table, edit lists and iTunes metadata; HEVC+TTXT with a QuickTime-form meta and constant sample size; VP9 with mdat first; VP9+AAC in the QuickTime audio form with esds inside wave, a moov-level meta and a binary year) and fragmented movies (one and two tracks, mixed base/offset forms) are transformed at every applicable position (insert free/unknown boxes with 32- and 64-bit headers at every child index of the top level and of every iterating container; permute order-free siblings; swap mdat/moov; 64-bit header on each single box and on all; 1 and 8 spare bytes after every fixed-layout/table box), re-serialised with dependent offsets recomputed, and compared with the untransformed movie: per-sample results, offsets shifted by exactly the layout change, track accessors, metadata. Every single transformation and every pair of transformations, in both tiers.",
     "Logical movies are a fixed representative set (not the whole C03/C09 generator space). hev1/vp09/stsd/edts do not iterate over children and are out of scope of insertion.",
     "exhaustive enumeration of layout transformations (k<=2) of reference-encoded inputs, differential against the untransformed parse, on the real reader","§3 C12")
 chk("C18","model_checking",
@@ -76,7 +76,7 @@ chk("C18","model_checking",
     "exhaustive enumeration of input shapes against an independent reference encoder, on the real reader","§3 C18")
 
 chk("C04","model_checking",
-    "For all 48 box codecs (plus the esds descriptors) the shape space is enumerated (version 0/1, every subset of the flag bits that gate fields - tfhd 2^5, trun 2^6 -, every presence combination of optional children, list lengths 0..2/3 and the 5-bit/8-bit count limits of avcC) and crossed with value assignments: all-zero, all-ones at wire width, a fingerprint with distinct non-palindromic bytes per field, and one one-hot assignment per field. Each value is encoded (count returned = box_size() = bytes written = header size field; header code = the box's own), decoded with 0, 1 and 9 trailing sibling bytes (equal value, stream exactly at the box end), and the reference encoding (32- and 64-bit header) is pushed through decode -> encode -> decode (fixpoint).",
+    "For all 48 box codecs (plus the esds descriptors) the shape space is enumerated (version 0/1, every subset of the flag bits that gate fields - tfhd 2^5, trun 2^6 -, every presence combination of optional children, list lengths 0..2/3 and the 5-bit/8-bit count limits of avcC) and crossed with value assignments: all-zero, all-ones at wire width, a fingerprint with distinct non-palindromic bytes per field, and one one-hot assignment per field. Each value is encoded (count returned = box_size() = bytes written = header size field; header code = the box's own), decoded with 0, 1 and 9 trailing sibling bytes (equal value, stream exactly at the box end), and the reference encoding (32- and 64-bit header) is pushed through decode -> encode -> decode (fixpoint); the same fixpoint clause is applied to every box of the canned real files for which the library has a codec.",
     "Bounded by list lengths and the value alphabet (not arbitrary field values). 'Representable' is made explicit per box in the generator. Boxes over 4 GiB are only covered at header level (C05).",
     "exhaustive enumeration of box shapes x value assignments on the real codecs (round-trip and fixpoint oracles)","§3 C04")
 chk("C05","model_checking",
@@ -84,7 +84,7 @@ chk("C05","model_checking",
     "Trusted: the hand-written reference encoder (REFSPEC.md). Child order inside containers follows the library's (order carries no meaning). One known finding (escaped object type + explicit frequency, pinned by the repository's own test) is listed by predicate.",
     "exhaustive enumeration of box shapes x value assignments against an independent reference encoder/decoder; complete sweeps of packed bytes","§3 C05")
 chk("C13","model_checking",
-    "Boundary-value histories that land the media-data size, the first/last chunk offset (by 4.3 GB of volume through a sparse stream, and by a non-zero stream origin) and the summed durations (media, and movie timescale with ratios 1, 2, 1/2) at 2^32-2 .. 2^32+2 are muxed by the real writer, validated by the independent parser (C02 oracle incl. 64-bit forms where a value needs them) and read back sample by sample through the real reader.",
+    "Boundary-value histories that land the media-data size, the first/last chunk offset (by 4.3 GB of volume through a sparse stream, and by a non-zero stream origin) and the summed durations (media, and movie timescale with ratios 1, 2, 1/2) at 2^32-2 .. 2^32+2, plus an origin sweep that puts the 2^32 boundary at every byte of the region written by the final flushes of two tracks with pending chunks, are muxed by the real writer, validated by the independent parser (C02 oracle incl. 64-bit forms where a value needs them) and read back sample by sample through the real reader.",
     "Volume cases use constant-valued large samples; AVC only in quick, all five kinds in thorough. Boxes other than mdat above 4 GiB are unreachable through the muxer.",
     "boundary-value enumeration of muxing histories over a sparse >4 GiB stream on the real muxer+reader, judged by reference model and independent validator","§3 C13")
 
